@@ -400,7 +400,12 @@ func C11(c *Ctx) {
 				}
 			}
 			// and no success return is reachable without passing the comparison
-			rs2 := core.Reach([]core.Point{core.EntryOf(nc)}, isBlocks, nil)
+			// (the comparison itself, not just the Blocks() call: a short-circuit in front of it skips the reconciliation)
+			isCmp := func(in ssa.Instruction) bool {
+				ifi, ok := in.(*ssa.If)
+				return ok && surplus[ifi.Block()] != nil
+			}
+			rs2 := core.Reach([]core.Point{core.EntryOf(nc)}, isCmp, nil)
 			for _, ret := range core.Returns(nc) {
 				if rs2.Has(ret) && core.MayBeSuccess(nc, ret, 1, core.ConvErrNil) {
 					ok = false
